@@ -113,25 +113,30 @@ def r1_fresh_error_state(ctx, it):
                   f'emptied on every path BEFORE the parse: errors left behind by an earlier malformed cell - for instance when the '
                   f'parse or the tree walk of that cell raised before any later clean-up - make a later valid cell fail, so the outcome '
                   f'for a cell depends on the cells parsed before it')
-    # the collected errors decide the outcome: a raise after the parse whose test derives from the collector
-    env = {}
-    for n in walk_local(it.node):
-        if isinstance(n, ast.Assign) and len(n.targets) == 1:
-            t, v = n.targets[0], n.value
-            if isinstance(t, ast.Name):
-                env.setdefault(t.id, []).append(src(v))
-            elif isinstance(t, ast.Tuple) and isinstance(v, ast.Tuple) and len(t.elts) == len(v.elts):
-                for a, b in zip(t.elts, v.elts):
-                    if isinstance(a, ast.Name):
-                        env.setdefault(a.id, []).append(src(b))
-    decisive = False
-    for n in walk_local(it.node):
-        if isinstance(n, ast.If) and n.lineno > parse_calls[0].lineno and any(isinstance(x, ast.Raise) for x in n.body):
-            txt = src(n.test)
-            names = {x.id for x in ast.walk(n.test) if isinstance(x, ast.Name)}
-            origin = txt + ' ' + ' '.join(o for nm in names for o in env.get(nm, []))
-            if osrc in origin:
-                decisive = True
+    # the collected errors decide the outcome: after the parse every return is guarded by a test of the collector, and the other
+    # outcome of that test raises
+    guarded_returns = raising = 0
+    unguarded = 0
+    for sp in symex.func_sym_paths(it):
+        started = False
+        tests_after = []
+        for e in sp.events:
+            if isinstance(e.expr, ast.AST) and any(isinstance(c, ast.Call) and isinstance(c.func, ast.Attribute) and c.func.attr == 'start'
+                                                   for c in ast.walk(e.expr)):
+                started = True
+            elif e.kind == 'cond' and started:
+                tests_after.append(src(e.expr))
+        if not started:
+            continue
+        on_collector = any(osrc in t for t in tests_after)
+        if sp.end == 'return':
+            if on_collector:
+                guarded_returns += 1
+            else:
+                unguarded += 1
+        elif sp.end == 'raise' and on_collector:
+            raising += 1
+    decisive = guarded_returns > 0 and raising > 0 and unguarded == 0
     ctx.check(decisive, 'R1', it.loc, it.qualname, 'errors-not-decisive',
               'after the parse, a non-empty error collection makes import_token raise',
               'no raise after the parse depends on the collected errors: a malformed cell is accepted')
@@ -252,6 +257,8 @@ def r3_discipline(ctx):
     # self.errors is written nowhere else in the importer (except __init__)
     imp = ctx.prog.cls(f'{N.IMPORTER}.Importer')
     for f in imp.methods.values():
+        if ctx.prog.is_glue(f):
+            continue        # an extracted helper: its statements are judged where they were inlined
         for n in walk_local(f.node):
             if isinstance(n, ast.Call) and isinstance(n.func, ast.Attribute) and src(n.func.value) == 'self.errors' \
                     and n.func.attr in ('append', 'extend', 'insert', 'pop', 'remove', 'clear'):
@@ -271,7 +278,19 @@ def r4_verbatim(ctx, it):
         raise AnalysisError('anchor vanished: ErrorToken.__init__/export')
     enc_p = init.params[1]
     sup = [n for n in walk_local(init.node) if isinstance(n, ast.Call) and src(n.func) == 'super().__init__']
-    ok = len(sup) == 1 and sup[0].args and F.is_name(sup[0].args[0], enc_p)
+    ok = False
+    if len(sup) == 1:
+        base_init = None
+        for c_ in ctx.prog.mro(et)[1:]:
+            if '__init__' in c_.methods:
+                base_init = c_.methods['__init__']
+                break
+        if base_init is not None and len(base_init.params) > 1:
+            try:
+                b_ = F.bind_args(sup[0], base_init, True)
+                ok = F.is_name(b_.get(base_init.params[1]), enc_p)
+            except AnalysisError:
+                ok = False
     ctx.check(ok, 'R4', init.loc, init.qualname, 'error-token-stores-cell', 'ErrorToken stores the cell text unchanged as its encoding',
               f'ErrorToken passes `{src(sup[0].args[0]) if sup and sup[0].args else None}` to its base class')
     ab = ctx.prog.func(f'{N.TOKENS}.AbstractToken.__init__')
